@@ -1,0 +1,87 @@
+//! Verification hooks. This module is only compiled with `--cfg regexml_verif`
+//! and is not part of the public API of the crate.
+//!
+//! * a deterministic step counter ("fuel") that the matching code ticks, so
+//!   that an external monitor can bound a call in logical steps rather than
+//!   wall-clock time;
+//! * counters for the search shortcuts taken by `ReMatcher::matches`, so that
+//!   a monitor can show which shortcuts actually fired in the executions it
+//!   observed.
+#![allow(missing_docs)]
+
+use std::cell::Cell;
+
+/// Payload of the panic raised when the step limit is exceeded.
+#[derive(Debug)]
+pub struct FuelExhausted;
+
+pub const PROBE_BOL_SINGLE_LINE: usize = 0;
+pub const PROBE_BOL_MULTI_LINE: usize = 1;
+pub const PROBE_MIN_LENGTH_CUT: usize = 2;
+pub const PROBE_PREFIX_SCAN: usize = 3;
+pub const PROBE_INITIAL_CLASS: usize = 4;
+pub const PROBE_PRECONDITION_REJECT: usize = 5;
+pub const PROBE_PRECONDITION_PASS: usize = 6;
+pub const PROBE_COUNT: usize = 7;
+
+pub const PROBE_NAMES: [&str; PROBE_COUNT] = [
+    "bol_single_line",
+    "bol_multi_line",
+    "min_length_cut",
+    "prefix_scan",
+    "initial_class",
+    "precondition_reject",
+    "precondition_pass",
+];
+
+thread_local! {
+    static STEPS: Cell<u64> = const { Cell::new(0) };
+    static LIMIT: Cell<u64> = const { Cell::new(0) };
+    static PROBES: [Cell<u64>; PROBE_COUNT] = const { [
+        Cell::new(0), Cell::new(0), Cell::new(0), Cell::new(0),
+        Cell::new(0), Cell::new(0), Cell::new(0),
+    ] };
+}
+
+/// Reset the step counter of this thread and arm a limit (0 = no limit).
+pub fn set_fuel(limit: u64) {
+    STEPS.with(|s| s.set(0));
+    LIMIT.with(|l| l.set(limit));
+}
+
+/// Steps counted on this thread since the last `set_fuel`.
+pub fn steps() -> u64 {
+    STEPS.with(|s| s.get())
+}
+
+/// Count one step; unwinds with `FuelExhausted` when the armed limit is hit.
+#[inline]
+pub(crate) fn tick() {
+    let n = STEPS.with(|s| {
+        let n = s.get() + 1;
+        s.set(n);
+        n
+    });
+    let limit = LIMIT.with(|l| l.get());
+    if limit != 0 && n > limit {
+        // disarm, so that nothing ticking while unwinding panics again
+        LIMIT.with(|l| l.set(0));
+        std::panic::panic_any(FuelExhausted);
+    }
+}
+
+#[inline]
+pub(crate) fn probe(kind: usize) {
+    PROBES.with(|p| p[kind].set(p[kind].get() + 1));
+}
+
+/// Read and reset the shortcut counters of this thread.
+pub fn take_probes() -> [u64; PROBE_COUNT] {
+    PROBES.with(|p| {
+        let mut out = [0; PROBE_COUNT];
+        for (o, c) in out.iter_mut().zip(p.iter()) {
+            *o = c.replace(0);
+        }
+        out
+    })
+}
